@@ -31,7 +31,7 @@ func vfFrame(tag byte, body []byte) []byte {
 
 func vfC05MvtFeature_N(tier int) int {
 	if tier == 0 {
-		return 2 * 7
+		return 2 * 6
 	}
 	return 2 * 9
 }
@@ -59,7 +59,7 @@ func vfC05MvtFeature(c int) {
 // symbolic layer body
 func vfC05MvtLayer_N(tier int) int {
 	if tier == 0 {
-		return 6
+		return 5
 	}
 	return 8
 }
